@@ -20,6 +20,7 @@ CONSTANTS
   CommaSeparates = FALSE
   RejectDrops = FALSE
   MayAcceptedSplits = FALSE
+  ArgAliased = FALSE
   RejAt = {}
   RejThen = 0
   RejEditAt = {}
